@@ -78,6 +78,12 @@ MCInit ==
      \/ \E c1 \in {<<"exit", 0>>, <<"exit", 1>>}, e1 \in Effects, c2 \in CmdKinds, strict \in BOOLEAN :
           scn = Build(Layout("none", <<I1(Cmd(c1[1], c1[2], e1), strict), I2(Cmd(c2[1], c2[2], "none"))>>),
                       Own("o1"), Files("none"), Cwd0)
+     \* an inspection NAMED LIKE THE STEP: its rules are about what the inspection recorded, not about the step's link
+     \/ \E e1 \in Effects, lenient \in BOOLEAN :
+          scn = Build(Layout("none", <<[Insp("s1", <<"s", "1">>, Cmd("exit", 0, e1), FALSE) EXCEPT
+                                          !.ep = IF lenient THEN <<Simple("ALLOW", <<"*">>)>>
+                                                 ELSE <<Simple("DISALLOW", PNew), Simple("REQUIRE", PG), Simple("ALLOW", <<"*">>)>>]>>),
+                      Own("o1"), Files("none"), Cwd0)
      \/ \E e1 \in Effects, how \in {"allow", "disallow_link", "require_link", "only_g", "create_link"} :
           scn = Build(Layout("none", <<I1(Cmd("exit", 0, e1), FALSE), I2m(Cmd("exit", 0, "none"), how)>>),
                       Own("o1"), Files("none"), Cwd0)
